@@ -135,8 +135,9 @@ impl<'a> Runner<'a> {
             }
             n += 1;
             if n > cap {
+                let zero_dur = self.eng.cfg.as_ref().map(|c| c.fdt_dur == 0).unwrap_or(false);
                 self.ctx.oracle_fail(
-                    "C12:read-does-not-terminate",
+                    if zero_dur { "C12:read-does-not-terminate-fdt-duration-0" } else { "C12:read-does-not-terminate" },
                     &format!("more than {} consecutive packets from read() at the fixed instant {}", cap, self.now - T0),
                 );
                 return n;
@@ -647,6 +648,19 @@ fn degenerate_cases(r: &mut Runner) {
     }
 }
 
+/// `fdt_duration = 0`: every idle poll of the FDT session republishes (finding F24)
+fn zero_fdt_duration_case(r: &mut Runner) {
+    for full in [true, false] {
+        r.begin(&format!("fdtdur0-{}", full as u8));
+        let cfg = NewSpec { full, fdt_car: (false, S), fdt_dur: 0, start_id: 1, il: 1, efdt: 1400, queues: vec![(0, 1)] };
+        r.op(cfg.line());
+        r.op(AddSpec::simple(0, 2).line());
+        r.op(format!("sched publish {}", r.now));
+        r.read_until_none(120);
+        r.finish();
+    }
+}
+
 pub fn run(ctx: &mut Ctx, _eng: &mut dyn Engine) {
     let thorough = ctx.tier_thorough;
     let seed = ctx.seed;
@@ -659,6 +673,7 @@ pub fn run(ctx: &mut Ctx, _eng: &mut dyn Engine) {
     let mut rng = Rng::new(seed);
     let mut r = Runner::new(ctx);
     degenerate_cases(&mut r);
+    zero_fdt_duration_case(&mut r);
     removal_cases(&mut r, thorough);
     grid_cases(&mut r, &mut rng, thorough);
     timing_cases(&mut r, &mut rng, if thorough { 3000 } else { 300 });
